@@ -10,26 +10,35 @@
 (* the real augmentation and compares.                                     *)
 (*                                                                         *)
 (* Parameters (constants of the cfg written by the harness):               *)
-(*   Names, FU, VU : the universe (names; imports a function body / an     *)
-(*                   initialiser may use)                                  *)
+(*   Names, FU, VU, SU : the universe (names; imports a function body / an *)
+(*                   initialiser / a function SIGNATURE may use)           *)
 (*   Mode = "full"   : every pair of well-formed sides with <= MaxO / MaxV  *)
 (*                     declarations over the classes Classes, blank import *)
 (*                     flags Bls, import paths Ips                         *)
 (*   Mode = "sample" : NChunks files c12_chunk_<u>.json, each a sequence   *)
 (*                     of pair descriptors chosen by the harness from      *)
 (*                     VERIF_SEED: [ob, vb, ip, o, v] with o a sequence of *)
-(*                     <<class, index>> and v a sequence of <<class,       *)
-(*                     index, variant>>, all reduced modulo the size of    *)
-(*                     the alphabet they index                             *)
+(*                     <<class, index, su>> and v a sequence of <<class,   *)
+(*                     index, variant, su>>, the numbers reduced modulo    *)
+(*                     the size of the alphabet they index; su is the      *)
+(*                     signature use given to a function declaration (the  *)
+(*                     sample alphabets are built with SU = {""}; the      *)
+(*                     harness chooses su so that imports whose LAST use   *)
+(*                     is a signature, and override-signatures that name   *)
+(*                     an import of the original file, are frequent)       *)
+(*   Mode = "full" enumerates signature uses through SU: with MaxO = 1 an  *)
+(*   original file whose ONLY change is an override-signature, a           *)
+(*   keep-original or a purge of the last user of an import; with          *)
+(*   MaxO = 2 the same next to an untouched declaration.                   *)
 (*   OutFile : prefix of the output files (one per unit: a unit is         *)
 (*             processed by one worker)                                    *)
 (***************************************************************************)
 EXTENDS Overlay, Json, CSV, SequencesExt, FiniteSetsExt
 
-CONSTANTS Names, FU, VU, Ips, Mode, Classes, Bls, MaxO, MaxV, NChunks, OutFile
+CONSTANTS Names, FU, VU, SU, Ips, Mode, Classes, Bls, MaxO, MaxV, NChunks, OutFile
 
 Pairs2 == {x \in Names \X Names : x[1] # x[2]}
-Gen(k, specs) == Dc(k, "", "", "", "", "", FALSE, specs)
+Gen(k, specs) == Dc(k, "", "", "", "", "", "", FALSE, specs)
 Disjoint(s1, s2) == SeqRange(s1.ns) \cap SeqRange(s2.ns) = {}
 
 TSpecs  == {Sp(<<n>>, f, "", "") : n \in Names, f \in {"plain", "generic"}}
@@ -46,10 +55,10 @@ Iota(n) == Sp(<<n>>, "iota", "", "")
 ClassNames == <<"func", "meth", "lnk", "type1", "type2", "var1", "var2", "var3", "const1", "const2", "iota">>
 
 OClass(c) ==
-  CASE c = "func"  -> {Dc("func", "", n, "", "", u, g, <<>>) : n \in Names, u \in FU, g \in BOOLEAN}
-                      \cup {Dc("func", "", "init", "", "", u, FALSE, <<>>) : u \in FU}
-    [] c = "meth"  -> {Dc("meth", "", m, r, rk, u, FALSE, <<>>) : m \in {"M", "N"}, r \in Names, rk \in {"val", "ptr", "gen"}, u \in FU \cap {"", "pl"}}
-    [] c = "lnk"   -> {Dc("lnk", "", n, "", rk, "", FALSE, <<>>) : n \in Names, rk \in {"doc", "float"}}
+  CASE c = "func"  -> {d \in {Dc("func", "", n, "", "", u, su, g, <<>>) : n \in Names, u \in FU, su \in SU, g \in BOOLEAN} : d.su = "plc" => d.g}
+                      \cup {Dc("func", "", "init", "", "", u, "", FALSE, <<>>) : u \in FU}
+    [] c = "meth"  -> {Dc("meth", "", m, r, rk, u, su, FALSE, <<>>) : m \in {"M", "N"}, r \in Names, rk \in {"val", "ptr", "gen"}, u \in FU \cap {"", "pl"}, su \in SU \ {"plc"}}
+    [] c = "lnk"   -> {Dc("lnk", "", n, "", rk, "", su, FALSE, <<>>) : n \in Names, rk \in {"doc", "float"}, su \in SU \cap {"", "pl", "us"}}
     [] c = "type1" -> {Gen("type", <<s>>) : s \in TSpecs}
     [] c = "type2" -> {Gen("type", <<x[1], x[2]>>) : x \in {y \in TSpecs \X TSpecs : Disjoint(y[1], y[2])}}
     [] c = "var1"  -> {Gen("var", <<s>>) : s \in VSpecs1}
@@ -68,7 +77,8 @@ OClass(c) ==
 IsIota(dc) == dc.specs # <<>> /\ dc.specs[1].f = "iota"
 Variants(dc) ==
   IF IsFn(dc)
-  THEN {[dc EXCEPT !.d = d] : d \in (IF dc.n = "init" THEN {""} ELSE IF dc.k = "lnk" THEN {"", "purge"} ELSE {"", "keep", "purge", "sig"})}
+  THEN {[dc EXCEPT !.d = d, !.u = (IF d = "sig" THEN "" ELSE dc.u)]     \* an override-signature marker has no body
+        : d \in (IF dc.n = "init" THEN {""} ELSE IF dc.k = "lnk" THEN {"", "purge"} ELSE {"", "keep", "purge", "sig"})}
   ELSE {dc, [dc EXCEPT !.d = "purge"]}
        \cup (IF IsIota(dc) THEN {} ELSE
              {[dc EXCEPT !.specs = [j \in DOMAIN dc.specs |-> IF j \in S THEN [dc.specs[j] EXCEPT !.d = "purge"] ELSE dc.specs[j]]]
@@ -80,8 +90,15 @@ OA == [c \in Range(ClassNames) |-> SetToSeq(OClass(c))]
 (* sample mode                                                             *)
 (***************************************************************************)
 ClassOf(x) == ClassNames[(x % Len(ClassNames)) + 1]
-ODecl(t) == LET a == OA[ClassOf(t[1])] IN a[(t[2] % Len(a)) + 1]
-VDecl(t) == LET vs == SetToSeq(Variants(ODecl(t))) IN vs[(t[3] % Len(vs)) + 1]
+\* give function declaration dc the signature use su where that is well-formed
+WithSu(dc, su) ==
+  IF ~IsFn(dc) \/ dc.n = "init" \/ su \notin SigUses THEN dc
+  ELSE IF dc.k = "lnk" /\ su \notin {"", "pl", "us"} THEN dc
+  ELSE IF su = "plc" /\ ~dc.g THEN [dc EXCEPT !.su = "pl"]
+  ELSE [dc EXCEPT !.su = su]
+ODecl0(t) == LET a == OA[ClassOf(t[1])] IN a[(t[2] % Len(a)) + 1]
+ODecl(t) == WithSu(ODecl0(t), t[3])
+VDecl(t) == LET vs == SetToSeq(Variants(ODecl0(t))) IN WithSu(vs[(t[3] % Len(vs)) + 1], t[4])
 SamplePair(d) ==
   [o |-> [bl |-> d.ob, decls |-> [i \in DOMAIN d.o |-> ODecl(d.o[i])]],
    v |-> [bl |-> d.vb, decls |-> [i \in DOMAIN d.v |-> VDecl(d.v[i])]],
@@ -130,8 +147,8 @@ UnitFile(u) == OutFile \o "." \o ToString(u) \o ".ndjson"
 Rec(pr) ==
   IF Valid(pr)
   THEN [ok |-> TRUE, o |-> pr.o, v |-> pr.v, ip |-> pr.ip, m |-> Merged(pr.o, pr.v, pr.ip),
-        tc |-> TypeChecks(pr.o, pr.v), alone |-> OrigAlone(pr.o)]
-  ELSE [ok |-> FALSE, o |-> pr.o, v |-> pr.v, ip |-> pr.ip, m |-> {}, tc |-> FALSE, alone |-> FALSE]
+        tc |-> TypeChecks(pr.o, pr.v), alone |-> OrigAlone(pr.o), open |-> SigImportsOpen(pr.o, Ov(pr.v))]
+  ELSE [ok |-> FALSE, o |-> pr.o, v |-> pr.v, ip |-> pr.ip, m |-> {}, tc |-> FALSE, alone |-> FALSE, open |-> FALSE]
 
 \* "invariants": Thm checks the reference on every pair of the batch, Emit writes the batch (side effect)
 Thm  == \A i \in DOMAIN row : LET pr == PairOf(unit, row[i]) IN Valid(pr) => Theorems(pr.o, pr.v, pr.ip)
